@@ -14,10 +14,12 @@ pub mod c10;
 pub mod c11;
 pub mod c12;
 pub mod c13;
+pub mod c14;
 pub mod c15;
 pub mod c16;
 pub mod store;
 pub mod c17;
+pub mod c18;
 pub mod c19;
 pub mod c20;
 pub mod hist;
@@ -36,9 +38,11 @@ pub fn dispatch(args: &Args) -> i32 {
         "C11" => c11::run(args),
         "C12" => c12::run(args),
         "C13" => c13::run(args),
+        "C14" => c14::run(args),
         "C15" => c15::run(args),
         "C16" => c16::run(args),
         "C17" => c17::run(args),
+        "C18" => c18::run(args),
         "C19" => c19::run(args),
         "C20" => c20::run(args),
         "selfcheck" => {
